@@ -67,7 +67,7 @@ func devUnit(args []string) {
 				fmt.Println("        src:", r.Ob.Src)
 				if dump {
 					fmt.Println(r.Res.Output)
-					os.WriteFile("/tmp/fail.smt2", []byte(u.Script(r.Ob)), 0o644)
+					os.WriteFile("/tmp/fail.smt2", []byte(u.Script(r.Ob, r.FailPart)), 0o644)
 				}
 			}
 		}
